@@ -22,9 +22,9 @@ CLAIMED = {
             "closes exactly the leaving entity and the lookup fails afterwards, over every reachable state; command-queue discipline) + checked "
             "correspondence incl. exhaustive lifecycle op sequences and observer-issued deactivations",
             "Events of every state history form well-formed episodes; remove/despawn/rebuild deliver exactly the terminal events of the affected "
-            "entities with zero value and state None; closing events issued from observers are put at the front of the queue and nothing already "
-            "delivered is lost. The exactly-once statement for arbitrary reaction scripts is proved for reaction-free queues and as a prefix "
-            "property otherwise (partial); Bevy's queue discipline itself is modelled." + CORR, "§5 C02"),
+            "entities with zero value and state None; with arbitrary observer reaction scripts every queued event - frame events and closing "
+            "events of observer-requested deactivations - is delivered exactly once (queue_exactly_once: the processed list contains all "
+            "pending events in order and the delivery counter advances by its length). Bevy's queue discipline itself is modelled." + CORR, "§5 C02"),
     "C03": ("Lean 4 theorems (fold invariant over arbitrary condition machines, by induction on the condition list; combine/overwrite as list "
             "concatenation/replacement) + checked correspondence incl. exhaustive (kind x result) sequences",
             "The explicit/implicit/blocker law is proved for every list of arbitrary conditions at input level, at action level and for both "
@@ -44,8 +44,8 @@ CLAIMED = {
     "C07": ("Lean 4 theorems (mirror invariant registry <-> world over every reachable state: induction over operation histories; swap_remove as a "
             "permutation; one group per type, no empty group, no duplicate holder) + checked correspondence incl. exhaustive short op sequences",
             "Lookup succeeds exactly for current holders in every reachable state; groups exist exactly while a holder exists; a holder arriving "
-            "after the last one left gets a freshly built instance. Panic-freedom of the expect sites is covered by the correspondence (panic "
-            "capture) and, for the data lookups, by C04.no_panic; a full totality theorem is not proved (partial)." + CORR, "§5 C07"),
+            "after the last one left gets a freshly built instance; no lifecycle operation and no frame can panic in any reachable state "
+            "(no_operation_panics / no_frame_panics: totality of every expect site under the invariant, for instances built with bind)." + CORR, "§5 C07"),
     "C08": ("Lean 4 theorems (suppressed binding is skipped untouched; the test reads only the physical input; induction over arbitrary frame "
             "histories; after the first inactive frame the binding is bisimilar to a never-suppressed one) + checked correspondence incl. "
             "contexts created above/below consumers of the same held input",
@@ -60,12 +60,11 @@ CLAIMED = {
     "C10": ("Lean 4 theorems (per-step equations; induction over arbitrary state/delta histories) + checked correspondence",
             "Elapsed/fired durations are characterised for every state history and every sequence of non-negative deltas; payload = polled." + CORR, "§5 C10"),
     "C11": ("Lean 4 theorems (refinement of Press / JustPress / Release / Hold / HoldAndRelease against declarative specs over actuation histories "
-            "of any length by induction; timer base and finiteness incl. speed zero; Tap and Pulse as per-evaluation characterisations linked to "
-            "the history through the timer-state lemma) + checked correspondence on direct evaluate calls (exhaustive short actuation sequences "
+            "of any length by induction; timer base and finiteness incl. speed zero; Tap by induction as well; Pulse by a history invariant plus a per-evaluation fire condition) + checked correspondence on direct evaluate calls (exhaustive short actuation sequences "
             "x delta/speed grid x all parameter combinations) and in real contexts",
             "The built-in conditions are proved to follow their documented patterns in the chosen time base for every history; none fires without "
-            "actuation; timers never divide by zero. Partial: for Tap and Pulse the history-level statement is assembled from a per-evaluation "
-            "theorem plus the timer-state invariant (Pulse's count bound is per evaluation)." + CORR, "§5 C11"),
+            "actuation; timers never divide by zero. Pulse is characterised by its history invariant (timer = continuous actuation, count "
+            "within the limit, reset on release) plus the per-evaluation fire condition." + CORR, "§5 C11"),
     "C12": ("Lean 4 theorems (log of the evaluation equals the canonical invocation list, for arbitrary machines; independence from consumption) "
             "+ checked correspondence on instrumented conditions/modifiers",
             "Each modifier/condition past the held-input suppression is invoked exactly once per frame in the canonical order, with no "
